@@ -76,6 +76,17 @@ def hops_term(ops):
     return coq_list([f"({op['at']}, {coq_list(op_sends(a, op, k))}, {'true' if op.get('yield', True) else 'false'})" for k, op in enumerate(ops)])
 
 
+def env_term(script):
+    ch = []
+    for b in script["children"]:
+        se = f"(Some {b['self_exit']})" if b.get("self_exit") is not None else "None"
+        rs = coq_list([f"({s}, {('(Some %d)' % d) if d is not None else 'None'})" for s, d in b.get("react", [])])
+        df = f"(Some {b['default']})" if b.get("default") is not None else "None"
+        ch.append(f"({se}, {rs}, {df}, {'true' if b.get('ignore_all') else 'false'})")
+    nl = lambda key: coq_list([f"{x}%nat" for x in script.get(key, [])])
+    return f"(mk_env {coq_list(ch)} {nl('spawn_fail')} {nl('signal_fail')} {nl('kill_fail')})"
+
+
 def history_term(case, variant="fixed"):
     a = api()
     hops = []
@@ -287,6 +298,15 @@ def job_check(P, tier, seed, monitor, extra_cases=None):
     except RuntimeError as e:
         c.errors.append(str(e))
         return c
+    if getattr(monitor, "wants_bound", False):
+        # C07 liveness: the instant by which the model's eager runtime has executed every queued control (Coq: now + slack)
+        terms = [f"(eval_drain_bound {env_term(cs_['script'])} {hops_term(cs_['ops'])})%N" for cs_ in cases]
+        bres, err = coq_eval("bound_" + P.pid, ["Gen.Signals_gen", "Codec.Signals", "Job.JobModel", "Run.EvalJob", "Run.EvalC08"], terms)
+        if err:
+            c.errors.append("model evaluation failed: " + err[-800:])
+            return c
+        for cs_, b in zip(cases, bres):
+            cs_["_bound"] = int(b)
     outcomes = 0
     for case, o, impl, ms in res:
         c.evaluations += 1
